@@ -176,6 +176,23 @@ func history(c *explore.Ctx, cf cfg) (viol []verdict, trace []string, outcome st
 		phase := fmt.Sprintf("TO2#%d", round)
 		faulty(c, wire, &trace, phase, &cancel)
 		storeFaults(c, next, &trace, phase)
+		// the owner's operator changes the rendezvous policy while a session is under way: before any TO2 exchange the
+		// RvInfo callback may start answering with other instructions (one deviation; no fault). Whatever the owner
+		// then stores must still be the header the device authenticated.
+		{
+			pre, changed, savedRv := wire.Pre, false, next.RvInfo
+			defer func() { next.RvInfo = savedRv }()
+			wire.Pre = func(x *lab.Exchange) {
+				if !changed && x.MsgType >= 60 && x.MsgType <= 70 && c.Choose(2, 1) == 1 {
+					changed = true
+					next.RvInfo = [][]protocol.RvInstruction{{{Variable: protocol.RVDns, Value: mustCBOR("rv-updated-" + next.Name + ".example")}, {Variable: protocol.RVDevPort, Value: mustCBOR(uint16(8443))}}}
+					trace = append(trace, fmt.Sprintf("%s msg %d: rendezvous policy updated before it", phase, x.MsgType))
+				}
+				if pre != nil {
+					pre(x)
+				}
+			}
+		}
 		tcfg := w.Dev.TO2Config(cf.suite, cf.cipher)
 		tcfg.AllowCredentialReuse = cf.reuse
 		var cred *fdo.DeviceCredential
@@ -326,7 +343,7 @@ func main() {
 		cfgs = append(cfgs, cfg{k("rsapkcs3072"), protocol.X509KeyEnc, kex.ASYMKEX3072Suite, kex.A192GcmCipher, false, 3}, cfg{k("rsapss2048"), protocol.X5ChainKeyEnc, kex.DHKEXid14Suite, kex.CoseAes128CbcCipher, false, 3},
 			cfg{k("rsa2048restr"), protocol.X509KeyEnc, kex.ECDH256Suite, kex.CoseAes256CtrCipher, false, 3})
 	}
-	r.Rule("histories DI -> k x (hand-over to the next owner by extension/resale, credential written to and re-read from its blob encoding, TO2) explored with the deviation-bounded explorer: every HTTP exchange of DI and TO2 is a choice point {pass, request lost, response lost after the server processed it, response replaced by an FDO error, context cancelled} and every store call of the serving side is a choice point {pass, fail}; bound 1 is complete for every configuration (thorough: bound 2 for two configurations). Oracles in every execution: after each successful DI/TO2 the stored voucher verifies against the credential the device now holds (header MAC under the device secret, manufacturer-key hash, GUID, rendezvous info - owners assign new rendezvous info -, certificate hash) and the next hand-over + TO2 works; with reuse nothing changes; a TO2 that fails before the owner produced Done2 leaves the owner's voucher store byte-identical, returns no credential, and an honest retry succeeds; a lost Done2 is counted as the inherent commit window. distinct = distinct (outcome, fault trace).")
+	r.Rule("histories DI -> k x (hand-over to the next owner by extension/resale, credential written to and re-read from its blob encoding, TO2) explored with the deviation-bounded explorer: every HTTP exchange of DI and TO2 is a choice point {pass, request lost, response lost after the server processed it, response replaced by an FDO error, context cancelled} every store call of the serving side is a choice point {pass, fail}, and before every TO2 exchange the owner's rendezvous policy callback may start returning other instructions (policy updated mid-session); bound 1 is complete for every configuration (thorough: bound 2 for two configurations). Oracles in every execution: after each successful DI/TO2 the stored voucher verifies against the credential the device now holds (header MAC under the device secret, manufacturer-key hash, GUID, rendezvous info - owners assign new rendezvous info -, certificate hash) and the next hand-over + TO2 works; with reuse nothing changes; a TO2 that fails before the owner produced Done2 leaves the owner's voucher store byte-identical, returns no credential, and an honest retry succeeds; a lost Done2 is counted as the inherent commit window. distinct = distinct (outcome, fault trace).")
 	var wg sync.WaitGroup
 	sem := make(chan struct{}, 16)
 	for i, cf := range cfgs {
